@@ -138,6 +138,7 @@ class PyEmit:
 
 
 HEADER = [
+    "from __future__ import annotations",
     "from typing import Optional, Union",
     "_REC: list[tuple[int, object]] = []",
     "def probe(k: int, x: object) -> None:",
